@@ -175,7 +175,7 @@ package level
 //@   loop 0: invariant all(j, 0, rangeindex+1, l.values[j] != v)
 //@   ensures ok ==> 0 <= idx && idx < len(l.values) && l.values[idx] == v            [@value]
 //@   ensures all(k, 0, old(len(l.values)), l.values[k] == old(l.values[k]))         [@frame]
-//@   ensures len(l.values) >= old(len(l.values)) && len(l.values) <= old(len(l.values)) + 1 && cap(l.values) == old(cap(l.values)) && l.bits == old(l.bits)   [@frame]
+//@   ensures len(l.values) >= old(len(l.values)) && len(l.values) <= old(len(l.values)) + 1 && cap(l.values) == old(cap(l.values)) && l.bits == old(l.bits) && base(l.values) == old(base(l.values)) && off(l.values) == old(off(l.values))   [@frame]
 //@   ensures ok && idx < old(len(l.values)) ==> len(l.values) == old(len(l.values))  [@value]
 //@   ensures ok && idx >= old(len(l.values)) ==> all(j, 0, old(len(l.values)), old(l.values[j]) != v)   [@value]
 //@   ensures !ok ==> idx == l.bits + 1 && len(l.values) == old(len(l.values)) && len(l.values) == cap(l.values) && all(j, 0, len(l.values), l.values[j] != v)   [@value]
@@ -190,7 +190,7 @@ package level
 //@   hint u = int(v)
 //@   ensures ok ==> 0 <= idx && idx < len(h.values) && h.values[idx] == v            [@value]
 //@   ensures all(k, 0, old(len(h.values)), h.values[k] == old(h.values[k]))         [@frame]
-//@   ensures len(h.values) >= old(len(h.values)) && len(h.values) <= old(len(h.values)) + 1 && cap(h.values) == old(cap(h.values)) && h.bits == old(h.bits)   [@frame]
+//@   ensures len(h.values) >= old(len(h.values)) && len(h.values) <= old(len(h.values)) + 1 && cap(h.values) == old(cap(h.values)) && h.bits == old(h.bits) && base(h.values) == old(base(h.values)) && off(h.values) == old(off(h.values))   [@frame]
 //@   ensures !ok ==> idx == h.bits + 1 && len(h.values) == old(len(h.values)) && len(h.values) == cap(h.values) && !old(has(h.ids, int(v)))   [@value]
 //@   ensures hpwf(h)                                                                 [@wf]
 //@   modifies h.values, h.values[0:cap(h.values)], map(h.ids)                        [@frame]
